@@ -208,15 +208,13 @@ class Real(object):
         project = self.Project([self.root])
         out = []
         for i, op in enumerate(ops):
-            if op[0] == 'write':
-                clock += 1
-                text = render_src(op[2])
-                self.put(op[1], text, clock)
+            if op[0] == 'write':        # ['write', mod, mtime, src]
+                text = render_src(op[3])
+                self.put(op[1], text, op[2])
                 exists[tuple(op[1])] = text
-            elif op[0] == 'touch':
+            elif op[0] == 'touch':      # ['touch', mod, mtime]
                 if tuple(op[1]) in exists:
-                    clock += 1
-                    self.put(op[1], exists[tuple(op[1])], clock)
+                    self.put(op[1], exists[tuple(op[1])], op[2])
             else:
                 q = op[1]
                 a = self.answer(project, q)
@@ -539,7 +537,57 @@ def rel_exhaustive_histories(maxlen):
 def is_abs_history(disk, ops):
     def rel(src):
         return any(it[0] in ('rfrm', 'rstar') for it in src)
-    return not (any(rel(s) for _, _, s in disk) or any(op[0] == 'write' and rel(op[2]) for op in ops))
+    return not (any(rel(s) for _, _, s in disk) or any(op[0] == 'write' and rel(op[-1]) for op in ops))
+
+
+# ----------------------------------------------------------------------------- mtimes
+
+# "each edit changes the file's modification time": the new mtime differs from every mtime that file has had,
+# it is NOT always newer (restore from a backup, git checkout, clock skew).  The generators above produce
+# ['write', mod, src] / ['touch', mod]; `stamp` turns them into ['write', mod, mtime, src] / ['touch', mod, mtime].
+MTIME0 = 50
+MTIME_SEQ = [30, 70, 10, 90, 20, 80, 40, 60, 5, 95, 15, 85, 25, 75, 35, 65, 45, 55]
+
+
+def stamp(disk, ops, rng=None):
+    """rng None: every initial file has mtime 50 and the k-th edit of a file gets MTIME_SEQ[k] (older, newer, older, ...);
+    otherwise distinct random values per file"""
+    used, count = {}, {}
+    ndisk = []
+    for mod, _, src in disk:
+        t = MTIME0 if rng is None else rng.randrange(1, 1000)
+        used[tuple(mod)] = set([t])
+        ndisk.append([mod, t, src])
+    out = []
+    for op in ops:
+        if op[0] == 'req':
+            out.append(op)
+            continue
+        key = tuple(op[1])
+        u = used.setdefault(key, set())
+        if rng is None:
+            k = count.get(key, 0)
+            count[key] = k + 1
+            t = MTIME_SEQ[k] if k < len(MTIME_SEQ) else 100 + k
+        else:
+            t = rng.randrange(1, 1000)
+            while t in u:
+                t = rng.randrange(1, 1000)
+        u.add(t)
+        out.append(['write', op[1], t, op[2]] if op[0] == 'write' else ['touch', op[1], t])
+    return ndisk, 0, out
+
+
+def has_older_step(disk, ops):
+    """some edit gives an existing file an mtime OLDER than the one it had"""
+    cur = dict((tuple(m), t) for m, t, _ in disk)
+    for op in ops:
+        if op[0] == 'write' or (op[0] == 'touch' and tuple(op[1]) in cur):
+            key = tuple(op[1])
+            if key in cur and op[2] < cur[key]:
+                return True
+            cur[key] = op[2]
+    return False
 
 
 # ----------------------------------------------------------------------------- targeted probe (the same hole, by hand)
@@ -599,7 +647,7 @@ def import_supp():
 
 def driver_request(disk, clock, ops):
     # C09_VARIANT (experiments only): compare an older tree with the model's `.coarseOnly` / `.pinned` behaviour
-    return {'variant': os.environ.get('C09_VARIANT', 'current'), 'fuel': FUEL, 'clock': clock, 'disk': disk, 'ops': ops}
+    return {'variant': os.environ.get('C09_VARIANT', 'current'), 'fuel': FUEL, 'disk': disk, 'ops': ops}
 
 
 def run_stream(check, real, histories, state, stream):
@@ -635,8 +683,10 @@ def run_stream(check, real, histories, state, stream):
             if len(mism_run) < 3:
                 mism_run.append('driver error %s on %s' % (jshort(rep, 300), jshort(driver_request(disk, clock, ops))))
             continue
-        if not rep.get('clock_ok', False):
+        if not rep.get('fresh_mtimes', False):
             state['clock_not_ok'] += 1
+        if has_older_step(disk, ops):
+            state['older_step'] += 1
         if rep.get('abs_ok', False):
             state['abs_histories'] += 1
             if not rep.get('transparent', False):
@@ -722,7 +772,7 @@ def run(check):
         check.prove(extra_targets=('drv_proj',), extra_audit_modules=('SuppModel.Witness.C09',))
         ok, out = common.lake_build(['SuppModel.Witness.C09'])
         check.oblige('witnesses SuppModel.Witness.C09 (C09_star, C09_ref, C09_created, C09_pinned_false, '
-                     'C09_coarseOnly_false, C09_norm_history, C09_norm_false, C09_norm)', ok, '' if ok else out[-2000:])
+                     'C09_coarseOnly_false, C09_lt, C09_lt_false, C09_norm_history, C09_norm_false, C09_norm)', ok, '' if ok else out[-2000:])
         hits = common.grep_forbidden('SuppModel.Witness.C09')
         check.oblige('forbidden-construct audit of SuppModel.Witness.C09', not hits, '; '.join(hits))
 
@@ -737,12 +787,14 @@ def run(check):
         exh_len, alphabet = 5, EXH_OPS
         n_random, rand_len = 1500, 80
         n_rel, rel_len = 1500, 30
-    exh = list(exhaustive_histories(exh_len, alphabet))
+    exh = [stamp(d, o) for d, _, o in exhaustive_histories(exh_len, alphabet)]
     rnd = [gen_scenario(rng, rand_len) for _ in range(n_random)]
-    rel = list(rel_exhaustive_histories(3 if quick else 4)) + [gen_rel_scenario(rng, rel_len) for _ in range(n_rel)]
+    rnd = [stamp(d, o, rng) for d, _, o in rnd]
+    rel = [stamp(d, o) for d, _, o in rel_exhaustive_histories(3 if quick else 4)]
+    rel += [stamp(d, o, rng) for d, _, o in [gen_rel_scenario(rng, rel_len) for _ in range(n_rel)]]
 
     state = {'evaluations': 0, 'kinds': {}, 'shapes': {}, 'indirect': set(), 'created': set(), 'max_len': 0,
-             'model_recursion': 0, 'oracle_failures': 0, 'oracle_failing_requests': 0, 'clock_not_ok': 0,
+             'model_recursion': 0, 'oracle_failures': 0, 'oracle_failing_requests': 0, 'clock_not_ok': 0, 'older_step': 0,
              'norm_cache_requests': 0, 'norm_cache_histories': 0, 'norm_cache_witness': None,
              'abs_histories': 0, 'abs_not_transparent': 0, 'abs_flag_mismatch': 0}
     root = tempfile.mkdtemp(prefix='zq_c09_')
@@ -766,11 +818,11 @@ def run(check):
     n_mf_all = e_mf + r_mf + l_mf
     check.oblige('correspondence fresh project (model fresh = Project(sources) on the same disk)', n_mf_all == 0,
                  '%d histories differ; %s' % (n_mf_all, ' || '.join((e_df + r_df + l_df)[:3])) if n_mf_all else '')
-    check.oblige('model hypotheses on the generated histories (clockOk, no recursion; absDisk/Op.isAbs as rendered; '
+    check.oblige('model hypotheses on the generated histories (freshMtimes, no recursion; absDisk/Op.isAbs as rendered; '
                  'the model itself is transparent on every absolute-import history, as C09_partial says)',
                  state['clock_not_ok'] == 0 and state['model_recursion'] == 0 and state['abs_flag_mismatch'] == 0
                  and state['abs_not_transparent'] == 0,
-                 'clock_ok false on %d histories, %d recursion answers, %d abs-flag mismatches, %d absolute histories not transparent '
+                 'freshMtimes false on %d histories, %d recursion answers, %d abs-flag mismatches, %d absolute histories not transparent '
                  'in the model' % (state['clock_not_ok'], state['model_recursion'], state['abs_flag_mismatch'],
                                    state['abs_not_transparent']))
 
@@ -809,6 +861,7 @@ def run(check):
         'of the request: `mod`, or `mod.mname` for `from mod import <module>`), some module B != A is written or effectively touched'
         % (exh_len, len(alphabet), n_random, rand_len))
     check.extra.update({
+        'histories_with_an_edit_to_an_older_mtime': state['older_step'],
         'histories_exhaustive': len(exh), 'histories_random': len(rnd), 'histories_relative': len(rel),
         'histories_absolute_only(abs_ok)': state['abs_histories'], 'disagreements_relative': l_mr,
         'histories_with_indirect_edit': len(state['indirect']),
@@ -827,7 +880,8 @@ def run(check):
     check.assumptions += [
         'C09_partial is about absolute imports; relative imports (norm_package/_norm_cache) are modelled and corresponded '
         '(stream `relative`) but the property is false there (Witness.C09_norm_false)',
-        'mtimes strictly increase per write/touch (set with os.utime, never two writes of one file with the same mtime)',
+        'every write/touch gives the file an mtime it has not had before in the history (older or newer: the exhaustive streams '
+        'alternate older/newer per file, the random streams draw distinct random values); set with os.utime, never sleeping',
         'acyclic import graphs over every source a history ever writes (star-import cycles recurse forever in the real code: '
         "C08's concern)",
         'no deletion of files and no shadowing from an earlier root (one source root; a dotted name is one file)',
